@@ -838,6 +838,224 @@ Section Sound.
       apply sim_ao; auto. rewrite firstn_length. lia.
   Qed.
 
+
+  (** ---- try with any number of handlers ---- *)
+  Definition b2n (b : bool) : nat := if b then 1 else 0.
+  Definition handler_ok (ts : sig) (any : bool) (a : sig * node) : Prop :=
+    tree_ok (snd a) /\ stored_ok (fst a) (snd a) /\ sua (fst a) = 0 /\ suo (fst a) = 0 /\
+    so (fst a) <= so ts /\ sa (fst a) + (so ts - so (fst a)) <= sa ts + 1 /\
+    (sa (fst a) + (so ts - so (fst a)) = sa ts + 1 -> any = true).
+
+  Ltac tar A B C D := vsimp; rewrite ?A, ?B, ?C, ?D; vsimp; cbn [b2n]; lia.
+
+  Lemma try_loop_post fuel : P fuel -> asm_ok ->
+    forall ts any sk un init uinit s0,
+    m (vao (sa ts) (so ts) sk) <= length init -> m un <= length uinit ->
+    forall hs sf f te s,
+    tree_ok f -> stored_ok sf f -> sua sf = 0 -> suo sf = 0 ->
+    so sf <= so ts -> sa sf + (so ts - so sf) <= sa ts + b2n te ->
+    (te = true -> sa sf + (so ts - so sf) = sa ts + 1) ->
+    Forall (handler_ok ts any) hs ->
+    sim (vpush (sa ts + b2n te) (vpop (sa ts) sk)) init (stk s) -> sim un uinit (und s) -> hid s = hid s0 ->
+    post (vao (sa ts) (so ts) sk, un) init uinit s0 (try_loop (exec fuel) ts any sf f hs te s).
+  Proof.
+    intros HP HA ts any sk un init uinit s0 F1 F2.
+    set (targs := sa ts) in *. set (mo := so ts) in *.
+    assert (Hm0 : m (vpop targs sk) <= length init) by (revert F1; vsimp; lia).
+    induction hs as [|[sh hnd] hs IHh]; intros sf f te s Tf Of U1 U2 Ho Ha Hte Hhs S1 S2 Hh; cbn [try_loop];
+      fold targs mo;
+      set (V := vpush (targs + b2n te) (vpop targs sk)) in *;
+      assert (Hb : te = true \/ te = false) by (destruct te; auto);
+      assert (HmV : m V = m (vpop targs sk)) by (unfold V; vsimp; reflexivity);
+      assert (HhV : h V = (h sk + Z.of_nat (b2n te))%Z) by (unfold V; vsimp; lia);
+      assert (Hlen : targs + b2n te <= length (stk s))
+        by (eapply (sim_enough (targs + b2n te) V); eauto; tar HmV HhV HmV HhV);
+      assert (Hte' : te = true -> sa sf + (mo - so sf) = targs + 1 /\ b2n te = 1)
+        by (intros Et; split; [apply Hte; exact Et | rewrite Et; reflexivity]);
+      assert (Hte0 : te = false -> b2n te = 0) by (intros Et; rewrite Et; reflexivity).
+    - (* the last function *)
+      unfold need. assert (En : (targs <=? length (stk s)) = true) by (apply Nat.leb_le; lia).
+      rewrite En. cbn [negb]. rewrite andb_false_r.
+      set (n2 := Z.to_nat (Z.max 0 (Z.of_nat (so sf) - Z.of_nat (sa sf) - (Z.of_nat mo - Z.of_nat targs)))).
+      assert (Hn2 : n2 <= targs) by (unfold n2; lia).
+      assert (Hn2' : (Z.of_nat n2 = Z.of_nat (b2n te) + (Z.of_nat (so sf) - Z.of_nat (sa sf)) - (Z.of_nat mo - Z.of_nat targs))%Z).
+      { destruct Hb as [Eb|Eb]; [destruct (Hte' Eb)|pose proof (Hte0 Eb)]; unfold n2; lia. }
+      clearbody n2.
+      eapply (post_deepen (vao (sa sf) (so sf) (vpush (targs - n2) (vpop targs V)), un)).
+      + eapply frame_step; eauto.
+        * cbn [stk set_stk]. apply sim_remove_n; auto; try lia. tar HmV HhV HmV HhV.
+        * tar HmV HhV HmV HhV.
+      + cbn [fst snd]. tar HmV HhV HmV HhV.
+      + reflexivity.
+      + split; cbn [fst snd]; [|lia]. tar HmV HhV HmV HhV.
+      + split; cbn [fst snd]; auto.
+    - (* a function followed by a handler *)
+      inversion Hhs as [|? ? Hh1 Hhs']; subst.
+      destruct Hh1 as (Th & Oh & V1 & V2 & Hoh & Hah & Hany). cbn [fst snd] in *. fold targs mo in Hoh, Hah, Hany.
+      assert (Hfa : sa sf <= targs + b2n te) by lia.
+      set (nb := Nat.min targs (sa sf)).
+      unfold need. assert (En : (nb <=? length (stk s)) = true) by (apply Nat.leb_le; unfold nb; lia).
+      rewrite En. cbn [negb].
+      pose proof (framed_of_P _ _ _ HP HA Tf Of) as Fr.
+      assert (A1 : sa sf <= length (stk s)) by lia.
+      assert (A2 : sua sf <= length (und s)) by lia.
+      specialize (Fr s A1 A2). unfold clean_of.
+      destruct (exec fuel f s) as [s2|c s2| |]; [| |exact I|exact I].
+      + (* f succeeded *)
+        destruct Fr as (outs & uouts & E1 & L1 & E2 & L2 & Hh2).
+        rewrite U2 in L2. destruct uouts; [|discriminate]. rewrite U1 in E2. simpl in E2.
+        assert (Sf : sim (vao (sa sf) (so sf) V) init (stk s2)).
+        { eapply frame_sim; eauto. tar HmV HhV HmV HhV. }
+        set (dep := targs + so sf - sa sf).
+        set (n1 := Z.to_nat (Z.max 0 (Z.of_nat (so sf) - Z.of_nat (sa sf) - (Z.of_nat mo - Z.of_nat targs)))).
+        assert (Hn1' : (Z.of_nat n1 = Z.of_nat (b2n te) + (Z.of_nat (so sf) - Z.of_nat (sa sf)) - (Z.of_nat mo - Z.of_nat targs))%Z).
+        { destruct Hb as [Eb|Eb]; [destruct (Hte' Eb)|pose proof (Hte0 Eb)]; unfold n1; lia. }
+        assert (Hn1d : n1 <= dep) by (unfold dep; lia).
+        clearbody n1.
+        assert (Hd : dep <= length (stk s2)).
+        { rewrite E1, app_length, skipn_length. unfold dep. lia. }
+        assert (Hneed : (dep <=? length (stk s2)) = true) by (apply Nat.leb_le; auto).
+        rewrite Hneed. cbn [negb]. rewrite andb_false_r.
+        apply post_ok; [|exact (eq_trans Hh2 Hh)]. split; cbn [fst snd set_stk stk und].
+        * eapply sim_deepen.
+          -- apply sim_remove_n; eauto. unfold dep. tar HmV HhV HmV HhV.
+          -- unfold dep. tar HmV HhV HmV HhV.
+          -- unfold dep. tar HmV HhV HmV HhV.
+          -- auto.
+        * rewrite E2. auto.
+      + (* f failed: exec_clean_stack *)
+        destruct Fr as (j & uj & E1 & E2 & Hh2).
+        rewrite E1, keep_bottom_frame by lia.
+        rewrite U1 in *. rewrite E2. rewrite (keep_bottom_frame uj (und s) 0) by lia.
+        cbn [skipn]. unfold set_su. cbn [stk und fills fbs depth].
+        set (stkA := skipn (sa sf) (stk s)).
+        assert (SA : sim (vpop (sa sf) V) init stkA).
+        { apply sim_pop; auto. tar HmV HhV HmV HhV. }
+        assert (LA : length stkA = length (stk s) - sa sf) by (unfold stkA; apply skipn_length).
+        set (W := vpush (targs - nb) (vpop targs sk)).
+        assert (HhW : h W = (h sk - Z.of_nat nb)%Z) by (unfold W, nb; vsimp; lia).
+        assert (HmW : m W = m (vpop targs sk)) by (unfold W; vsimp; reflexivity).
+        assert (Hnb : nb <= sa sf /\ nb <= targs /\ targs - sa sf <= targs - nb) by (unfold nb; lia).
+        (* the stack after the stale error value is gone *)
+        set (stale := te && (sa sf <=? targs)).
+        set (stkB := if stale then remove_n 1 (targs - sa sf + 1) stkA else stkA).
+        assert (Hst : (stale && negb (targs - sa sf + 1 <=? length stkA)) = false).
+        { unfold stale. destruct Hb as [Eb|Eb]; [destruct (Hte' Eb)|]; rewrite Eb; cbn [andb]; auto.
+          destruct (sa sf <=? targs) eqn:El; cbn [andb]; auto.
+          apply Nat.leb_le in El. apply negb_false_iff, Nat.leb_le. lia. }
+        rewrite Hst.
+        assert (SW : sim W init stkB).
+        { unfold stkB, stale. destruct Hb as [Eb|Eb]; [destruct (Hte' Eb) as [Q1 Q2]|pose proof (Hte0 Eb) as Q2]; rewrite Eb; cbn [andb].
+          - destruct (sa sf <=? targs) eqn:El.
+            + apply Nat.leb_le in El. eapply sim_deepen.
+              * apply (sim_remove_n 1 (targs - sa sf + 1)); eauto; try lia. tar HmV HhV HmW HhW.
+              * unfold nb in *. tar HmV HhV HmW HhW.
+              * unfold nb in *. tar HmV HhV HmW HhW.
+              * tar HmV HhV HmW HhW.
+            + apply Nat.leb_gt in El. eapply sim_deepen; [exact SA| | |].
+              * unfold nb in *. tar HmV HhV HmW HhW.
+              * unfold nb in *. tar HmV HhV HmW HhW.
+              * tar HmV HhV HmW HhW.
+          - eapply sim_deepen; [exact SA| | |].
+            + unfold nb in *. tar HmV HhV HmW HhW.
+            + unfold nb in *. tar HmV HhV HmW HhW.
+            + tar HmV HhV HmW HhW. }
+        assert (LB : targs - sa sf <= length stkB).
+        { eapply (sim_enough (targs - sa sf) W); eauto. tar HmV HhV HmW HhW. }
+        set (sB := {| stk := stkB; und := und s; fills := fills s2; fbs := fbs s2; depth := depth s2 |}).
+        assert (EsB : (if stale
+                       then set_stk {| stk := stkA; und := und s; fills := fills s2; fbs := fbs s2; depth := depth s2 |}
+                                    (remove_n 1 (targs - sa sf + 1) stkA)
+                       else {| stk := stkA; und := und s; fills := fills s2; fbs := fbs s2; depth := depth s2 |}) = sB).
+        { unfold sB, stkB. destruct stale; reflexivity. }
+        rewrite EsB. clear EsB.
+        assert (HhB : hid sB = hid s0).
+        { unfold sB, hid in *. cbn [fills fbs depth]. congruence. }
+        set (takes := any && (sa sh + (mo - so sh) =? targs + 1)).
+        assert (EstB : stk sB = stkB) by reflexivity. rewrite !EstB.
+        destruct c.
+        * (* a case error passes through *)
+          assert (Hn1 : (negb (targs - sa sf =? 0) && negb (targs - sa sf <=? length stkB)) = false).
+          { apply andb_false_iff. right. apply negb_false_iff, Nat.leb_le. exact LB. }
+          rewrite Hn1.
+          apply post_err; auto. split; cbn [fst snd set_stk stk und sB].
+          -- unfold remove_n. rewrite Nat.sub_diag. cbn [firstn app].
+             eapply simE_weaken.
+             ++ apply (simE_skip (targs - sa sf) (targs - nb) 0 W); eauto; try lia. tar HmV HhV HmW HhW.
+             ++ tar HmV HhV HmW HhW.
+          -- apply sim_simE; auto.
+        * (* the next handler runs *)
+          assert (Hdep : (takes && negb (targs - sa sf <=? length stkB)) = false).
+          { apply andb_false_iff. right. apply negb_false_iff, Nat.leb_le. exact LB. }
+          rewrite Hdep.
+          set (st1 := if takes then insert_at (targs - sa sf) errval stkB else stkB).
+          assert (S1' : sim (vpush (b2n takes) W) init st1).
+          { unfold st1. destruct takes; cbn [b2n].
+            - unfold insert_at. apply sim_insert; auto. tar HmV HhV HmW HhW.
+            - change stkB with ([] ++ stkB). apply (sim_push' 0 []); auto. }
+          assert (Htk : takes = true -> sa sh + (mo - so sh) = targs + 1).
+          { unfold takes. intros H. apply andb_prop in H as [_ H]. apply Nat.eqb_eq in H. auto. }
+          assert (Hnt : takes = false -> sa sh + (mo - so sh) <= targs).
+          { unfold takes. intros H. apply andb_false_iff in H as [H|H].
+            - destruct (Nat.eq_dec (sa sh + (mo - so sh)) (targs + 1)) as [E|E]; [|lia].
+              rewrite (Hany E) in H. discriminate.
+            - apply Nat.eqb_neq in H. lia. }
+          apply IHh; auto.
+          -- destruct takes eqn:Et; cbn [b2n]; [rewrite (Htk eq_refl)|pose proof (Hnt eq_refl)]; lia.
+          -- cbn [set_stk stk sB].
+             eapply sim_deepen.
+             ++ apply (sim_push' nb (firstn nb (stk s))); [rewrite firstn_length; lia|exact S1'].
+             ++ destruct takes; tar HmV HhV HmW HhW.
+             ++ tar HmV HhV HmW HhW.
+             ++ tar HmV HhV HmW HhW.
+  Qed.
+
+  Lemma try_post fuel : P fuel -> asm_ok ->
+    forall args d e e' init uinit s,
+    tree_ok (Mod MTry args) -> vnode d (Mod MTry args) e = Some e' ->
+    fits e' init uinit -> sim2 e init uinit s ->
+    post e' init uinit s (exec (S fuel) (Mod MTry args) s).
+  Proof.
+    intros HP HA args d [sk un] e' init uinit s Ht Hv [F1 F2] [S1 S2]. cbn [fst snd] in S1, S2.
+    destruct args as [|[sf f] [|[sh hnd] hs]]; try exact I.
+    cbn [tree_ok fst snd] in Ht. destruct Ht as (_ & HnoU & _ & Ht). specialize (HnoU eq_refl).
+    cbn [vnode] in Hv. destruct (MAX_NODE_DEPTH <? d); [discriminate|].
+    cbn [map fst snd] in Hv.
+    pose proof (try_sig_bounds sf (sh :: map fst hs)) as Hbd. cbv zeta in Hbd.
+    set (ts := fst (try_sig (sf :: sh :: map fst hs))) in *.
+    set (any := snd (try_sig (sf :: sh :: map fst hs))) in *.
+    destruct Hbd as (Tu1 & Tu2 & B1 & B2 & Bh).
+    inversion Hv; subst e'; clear Hv.
+    unfold handle_sig in *. cbn [fst snd] in *. rewrite Tu1, Tu2 in *. rewrite (vao00 _ _ _ S2) in *.
+    cbn [Exec.exec]. fold ts any.
+    unfold need. destruct (sa ts <=? length (stk s)) eqn:En; cbn [negb].
+    2:{ apply post_err; auto. split; cbn [fst snd].
+        - eapply simE_keep; eauto. vsimp. lia.
+        - eapply simE_keep; eauto. }
+    apply Nat.leb_le in En.
+    (* every function with its facts *)
+    assert (Hall : forall (l : list (sig * node)),
+              (fix go (l : list (sig * node)) : Prop :=
+                 match l with [] => True | a :: t => tree_ok (snd a) /\ stored_ok (fst a) (snd a) /\ go t end) l ->
+              Forall (fun a : sig * node => sua (fst a) = 0 /\ suo (fst a) = 0) l ->
+              Forall (fun h => so h <= so ts /\ sa h + (so ts - so h) <= sa ts + 1 /\
+                               (sa h + (so ts - so h) = sa ts + 1 -> any = true)) (map fst l) ->
+              Forall (handler_ok ts any) l).
+    { induction l as [|a t IHl]; intros G U B; [constructor|].
+      destruct G as (Ta & Oa & G). inversion U as [|? ? [Ua1 Ua2] U']; subst.
+      cbn [map] in B. inversion B as [|? ? (Ba1 & Ba2 & Ba3) B']; subst.
+      constructor; [|apply IHl; auto]. repeat split; auto. }
+    destruct Ht as (Tf & Of & Ht).
+    inversion HnoU as [|? ? [U1 U2] HnoU']; subst. cbn [fst] in *.
+    assert (Hhs : Forall (handler_ok ts any) ((sh, hnd) :: hs)) by (apply Hall; auto).
+    assert (Hw : sim (vpush (sa ts + b2n false) (vpop (sa ts) sk)) init (stk s)).
+    { cbn [b2n]. rewrite Nat.add_0_r. apply sim_widen; auto; revert F1; vsimp; lia. }
+    assert (Hd : false = true -> sa sf + (so ts - so sf) = sa ts + 1) by discriminate.
+    assert (Ha0 : sa sf + (so ts - so sf) <= sa ts + b2n false) by (cbn [b2n]; lia).
+    exact (try_loop_post fuel HP HA ts any sk un init uinit s F1 F2 ((sh, hnd) :: hs) sf f false s
+             Tf Of U1 U2 B1 Ha0 Hd Hhs Hw S2 eq_refl).
+  Qed.
+
   Ltac senv := cbn [handle_ao handle_sig epop epush fst snd set_stk set_und set_su stk und fills fbs depth] in *.
 
   Theorem P_all : asm_ok -> forall fuel, P fuel.
@@ -852,6 +1070,8 @@ Section Sound.
         - eapply onsub_post; eauto.
         - eapply (bothk_post fuel IH HA false); eauto.
         - eapply (bothk_post fuel IH HA true); eauto. }
+      destruct (match n with Mod MTry _ => true | _ => false end) eqn:Etry.
+      { destruct n; try discriminate Etry. destruct m; try discriminate Etry. eapply try_post; eauto. }
       destruct (match n with Mod MRepeatWithInverse [_; _] => true | _ => false end) eqn:Eri.
       { destruct n; try discriminate Eri. destruct m; try discriminate Eri.
         destruct args as [|[sg f] [|[si g] [|? ?]]]; try discriminate Eri.
@@ -884,7 +1104,7 @@ Section Sound.
         destruct e as [sk un]. destruct S as [S1 S2]. destruct F as [F1 F2].
         destruct m; destruct args as [|[sg f] [|[sg2 g] [|? ?]]]; try exact I;
           cbn [vnode map fst snd opt_bind] in Hv; try discriminate;
-          try discriminate Ei; try discriminate Ebk;
+          try discriminate Ei; try discriminate Ebk; try discriminate Etry;
           cbn [tree_ok fst snd] in Ht; destruct Ht as (Hup & HnoU & Hex & Ht); cbn [ignores_under] in HnoU.
         * (* Dip *)
           destruct Ht as (Tf & Of & _).
@@ -1085,103 +1305,6 @@ Section Sound.
           -- apply post_err; auto. split; senv.
              ++ eapply simE_keep; eauto. vsimp. lia.
              ++ eapply simE_keep; eauto.
-        * (* Try *)
-          destruct Ht as (Tf & Of & Tg & Og & _).
-          specialize (HnoU eq_refl). inversion HnoU as [|? ? [U1 U2] HnoU']; subst.
-          inversion HnoU' as [|? ? [U3 U4] _]; subst. cbn [fst] in *.
-          rewrite try_sig2 in *. cbn [fst snd] in *. unfold sig2 in *. cbn [sa so sua suo] in *.
-          set (mo := Nat.max (so sg) (so sg2)) in *.
-          set (targs := Nat.max (sa sg + (mo - so sg)) (sa sg2 + (mo - so sg2) - 1)) in *.
-          inversion Hv; subst e'; clear Hv. unfold handle_sig in *. cbn [fst snd sa so sua suo] in *.
-          rewrite (vao00 _ _ _ S2) in *.
-          unfold need. destruct (targs <=? length (stk s)) eqn:En; cbn [negb].
-          2:{ apply post_err; auto. split; senv.
-              - eapply simE_keep; eauto. vsimp. lia.
-              - eapply simE_keep; eauto. }
-          apply Nat.leb_le in En.
-          assert (Hfa : sa sg <= targs) by (unfold targs; lia).
-          pose proof (framed_of_P _ _ _ IH HA Tf Of) as Fr.
-          assert (A1 : sa sg <= length (stk s)) by lia.
-          assert (A2 : sua sg <= length (und s)) by lia.
-          specialize (Fr s A1 A2).
-          destruct (exec fuel f s) as [s2|c s2| |]; [| |exact I|exact I].
-          -- (* f succeeded *)
-             destruct Fr as (outs & uouts & E1 & L1 & E2 & L2 & Hh).
-             rewrite U2 in L2. destruct uouts; [|discriminate]. rewrite U1 in E2. simpl in E2.
-             assert (Sf : sim (vao (sa sg) (so sg) sk) init (stk s2)).
-             { eapply frame_sim; eauto. vsimp. lia. }
-             set (dep := targs + so sg - sa sg).
-             assert (Hd : dep <= length (stk s2)).
-             { rewrite E1, app_length, skipn_length. unfold dep. lia. }
-             assert (Hneed : (dep <=? length (stk s2)) = true) by (apply Nat.leb_le; auto).
-             rewrite Hneed. cbn [negb]. rewrite andb_false_r.
-             apply post_ok; auto. split; senv.
-             ++ eapply sim_deepen.
-                ** apply sim_remove_n; eauto.
-                   --- unfold dep. lia.
-                   --- vsimp. unfold dep. lia.
-                ** vsimp. unfold dep, targs. lia.
-                ** vsimp. unfold dep. lia.
-                ** auto.
-             ++ rewrite E2. auto.
-          -- (* f failed: exec_clean_stack *)
-             destruct Fr as (j & uj & E1 & E2 & Hh).
-             rewrite E1, keep_bottom_frame by lia.
-             rewrite U1 in *. rewrite E2. rewrite (keep_bottom_frame uj (und s) 0) by lia.
-             cbn [skipn]. unfold set_su. cbn [stk und fills fbs depth].
-             destruct c.
-             ++ (* a case error passes through *)
-                match goal with |- post _ _ _ _ (if ?c then _ else _) => destruct c end.
-                ** apply post_err; auto. split; senv.
-                   --- apply (simE_skip (sa sg) targs mo); auto.
-                   --- apply sim_simE; auto.
-                ** apply post_err; auto. split; senv.
-                   --- unfold remove_n. rewrite Nat.sub_diag. cbn [firstn app]. rewrite skipn_skipn.
-                       apply (simE_skip (targs - sa sg + sa sg) targs mo); auto. lia.
-                   --- apply sim_simE; auto.
-             ++ (* the handler runs *)
-                set (takes := (Nat.max (sa sg) (sa sg2 - 1) <? sa sg2 + (mo - so sg2)) &&
-                              (sa sg2 + (mo - so sg2) =? targs + 1)) in *.
-                assert (Hdep : (targs - sa sg <=? length (skipn (sa sg) (stk s))) = true).
-                { apply Nat.leb_le. rewrite skipn_length. lia. }
-                rewrite Hdep. cbn [negb]. rewrite andb_false_r.
-                rewrite Nat.min_r by lia.
-                set (st3 := firstn (sa sg) (stk s) ++
-                            (if takes then insert_at (targs - sa sg) errval (skipn (sa sg) (stk s))
-                             else skipn (sa sg) (stk s))).
-                set (v3 := if takes then vpush 1 (vpush targs (vpop targs sk)) else vpush targs (vpop targs sk)).
-                assert (S3 : sim v3 init st3).
-                { unfold v3, st3. destruct takes.
-                  - rewrite insert_at_split by lia. unfold insert_at. apply sim_insert.
-                    + apply sim_widen; auto.
-                    + vsimp. lia.
-                  - rewrite firstn_skipn. apply sim_widen; auto. }
-                assert (Hl3 : targs <= length st3).
-                { unfold st3. rewrite app_length, firstn_length.
-                  destruct takes; [unfold insert_at; rewrite app_length; simpl; rewrite firstn_length|];
-                    rewrite ?skipn_length; lia. }
-                assert (Hn3 : (targs <=? length st3) = true) by (apply Nat.leb_le; auto).
-                cbn [stk set_stk]. rewrite Hn3. cbn [negb]. rewrite andb_false_r.
-                set (n2 := Z.to_nat (Z.max 0 (Z.of_nat (so sg2) - Z.of_nat (sa sg2) - (Z.of_nat mo - Z.of_nat targs)))).
-                assert (Htk : takes = true -> sa sg2 + (mo - so sg2) = targs + 1).
-                { unfold takes. intros H. apply andb_prop in H as [_ H]. apply Nat.eqb_eq in H. auto. }
-                assert (Hnt : takes = false -> sa sg2 + (mo - so sg2) <= targs).
-                { unfold takes. intros H. apply andb_false_iff in H as [H|H].
-                  - apply Nat.ltb_ge in H. unfold targs. lia.
-                  - apply Nat.eqb_neq in H. unfold targs in *. lia. }
-                assert (Hn2 : n2 <= targs) by (unfold n2; lia).
-                eapply (post_deepen (vao (sa sg2) (so sg2) (vpush (targs - n2) (vpop targs v3)), un)).
-                ** eapply frame_step; eauto.
-                   --- cbn [stk set_stk]. apply sim_remove_n; auto.
-                       unfold v3. destruct takes; vsimp; lia.
-                   --- unfold v3. destruct takes eqn:Et;
-                         [pose proof (Htk eq_refl) | pose proof (Hnt eq_refl)]; vsimp; unfold n2; lia.
-                ** senv. unfold v3. destruct takes eqn:Et;
-                     [pose proof (Htk eq_refl) | pose proof (Hnt eq_refl)]; vsimp; unfold n2; lia.
-                ** reflexivity.
-                ** split; senv; [|lia]. unfold v3. destruct takes eqn:Et;
-                     [pose proof (Htk eq_refl) | pose proof (Hnt eq_refl)]; vsimp; unfold n2; lia.
-                ** split; senv; auto.
         * (* Case *)
           destruct Ht as (Tf & Of & _). inversion Hv; subst; clear Hv.
           pose proof (framed_post fuel sg f (sk, un) init uinit s s
